@@ -338,11 +338,14 @@ func (v *Value) SetMember(member Value, cell *Cell) (*Cell, error) {
 			return cell, nil
 		}
 
+		// in range (possibly only since the right-hand side of the assignment
+		// was evaluated): hand back the live item, whose value the caller is
+		// about to assign; overwriting it with the placeholder here would
+		// clobber `a[0] = (a[0] = "s")`
 		item, err := v.GetMember(member)
 		if err != nil {
 			return nil, err
 		}
-		item.Value = cell.Value
 		return item, nil
 	case ValueObj:
 		key := member.String()
